@@ -1369,7 +1369,14 @@ class Process(StateMachine, persistence.Savable, metaclass=ProcessStateMachineMe
 
         while self._paused is not None:
             # Checked again after waking up: the process may have been paused again before this task got to run
-            await self._paused
+            try:
+                await self._paused
+            except asyncio.CancelledError:
+                # The task stepping the process was cancelled while it waited to be played, which cancelled the
+                # future it was waiting for.  The process is still paused: arm a new one for whoever steps it next
+                if self._paused is not None and self._paused.cancelled():
+                    self._paused = persistence.SavableFuture()
+                raise
             if self.has_terminated():
                 # Killed (or failed) while paused
                 return
